@@ -46,4 +46,12 @@ ALL = {
 }
 
 if __name__ == '__main__':
-    main()
+    try:
+        main()
+    except SystemExit:
+        raise
+    except BaseException as ex:     # an internal error of the machinery is never a verdict: exit 2, not 1
+        import traceback
+        traceback.print_exc()
+        print(f'INCONCLUSIVE: internal error in the checker ({type(ex).__name__}: {ex}); no verdict')
+        sys.exit(2)
